@@ -571,8 +571,10 @@ def _divlike(op, ivop, rev=False, which=0):
                 return self >> (c.bit_length() - 1)
             if c & (c - 1) == 0:
                 return self & (c - 1)
-            qq, rr = _divmod_const(z3.simplify(a), c, ia)
-            return SymInt(qq if which == 0 else rr, r if r is not None else ((0, c - 1) if which else None))
+            if ia is None or max(abs(ia[0]), abs(ia[1])) >= (1 << 32):
+                # wide dividend: a bit-blasted divider stalls; use the quotient / remainder encoding
+                qq, rr = _divmod_const(z3.simplify(a), c, ia)
+                return SymInt(qq if which == 0 else rr, r if r is not None else ((0, c - 1) if which else None))
         t = z3.simplify(op(a, b, r))
         if z3.is_bv_value(t):
             return t.as_signed_long()
@@ -641,7 +643,7 @@ class _IntOps:
 
     def __truediv__(self, o):
         if type(o) is int and o > 0:
-            return SymRat(SymInt(bv(self)), o)
+            return SymRat(SymInt(bv(self), iv(self)), o)
         if isinstance(o, float) or getattr(o, "_vf_float", False):
             from .symfloat import SymFloat
 
@@ -679,7 +681,7 @@ class _IntOps:
         raise Unsupported("float() of a symbolic int reached C code")
 
     def __trunc__(self):
-        return SymInt(bv(self))
+        return SymInt(bv(self), iv(self))
 
     def bit_length(self):
         a = bv(self)
@@ -717,10 +719,10 @@ class _IntOps:
     def __str__(self):
         from .symstr import SymDecStr
 
-        return SymDecStr(SymInt(bv(self)))
+        return SymDecStr(SymInt(bv(self), iv(self)))
 
     def __round__(self, n=None):
-        return SymInt(bv(self))
+        return SymInt(bv(self), iv(self))
 
 
 class SymInt(_IntOps):
